@@ -591,8 +591,30 @@ pub static SOCKOPT: Scenario = Scenario {
 fn gen_sockopt(g: &mut Rng, tier: Tier) -> J {
     let n = g.range(2, if tier == Tier::Quick { 12 } else { 24 });
     let mut ops = vec![J::Arr(vec!["open".into(), 0u64.into()])];
-    for _ in 0..n {
+    let motif_at = if g.chance(1, 3) { g.below(n) } else { u64::MAX };
+    for i in 0..n {
         let slot = g.below(3);
+        if i == motif_at {
+            // a descriptor's whole life in a row: limits cached for one or both directions (by an option
+            // call or by the first transfer), close, the number handed out again, and a look at the new socket
+            ops.push(J::Arr(vec!["open".into(), slot.into()]));
+            for _ in 0..g.range(1, 3) {
+                if g.chance(1, 4) {
+                    ops.push(J::Arr(vec!["io".into(), slot.into()]));
+                } else {
+                    ops.push(J::Arr(vec!["setopt".into(), slot.into(), g.below(2).into(), (*g.pick(&[1u64, 20, 1000, 2500])).into()]));
+                }
+            }
+            ops.push(J::Arr(vec!["close".into(), slot.into()]));
+            ops.push(J::Arr(vec!["open".into(), slot.into()]));
+            if g.chance(1, 3) {
+                ops.push(J::Arr(vec!["setopt".into(), slot.into(), g.below(2).into(), (*g.pick(&[0u64, 20, 2500])).into()]));
+            }
+            for dir in 0..2u64 {
+                ops.push(J::Arr(vec!["query".into(), slot.into(), dir.into()]));
+            }
+            continue;
+        }
         match g.below(12) {
             0..=1 => ops.push(J::Arr(vec!["open".into(), slot.into()])),
             2..=4 => ops.push(J::Arr(vec!["setopt".into(), slot.into(), g.below(2).into(), (*g.pick(&[0u64, 1, 20, 1000, 2500])).into()])),
